@@ -694,7 +694,65 @@ def _make_subprocess_shim():
     independent of the machine."""
     m = _SubprocessShim("subprocess(sim)")
 
+    def _is_shell(cmd, k):
+        return bool(k.get("shell")) or isinstance(cmd, str)
+
+    class _DoneProcess:
+        """a shell command that has run (the recording os.system seam)"""
+        returncode = 0
+        stdout = stderr = stdin = None
+        pid = 4242
+
+        def __init__(self, cmd):
+            self.args = cmd
+
+        def wait(self, timeout=None):
+            return 0
+
+        def poll(self):
+            return 0
+
+        def communicate(self, input=None, timeout=None):
+            return (b"", b"")
+
+        def kill(self):
+            pass
+        terminate = kill
+
+        def __enter__(self):
+            return self
+
+        def __exit__(self, *a):
+            return False
+
+    def _shell(cmd):
+        _BOUND["shims"]["os"].system(cmd)
+
+    def call(cmd, *a, **k):
+        if _is_shell(cmd, k):
+            _shell(cmd)
+            return 0
+        return Popen(cmd, *a, **k)
+
+    def check_call(cmd, *a, **k):
+        return call(cmd, *a, **k)
+
+    def check_output(cmd, *a, **k):
+        call(cmd, *a, **k)
+        return b""
+
+    def run(cmd, *a, **k):
+        call(cmd, *a, **k)
+        return _subprocess.CompletedProcess(cmd, 0, b"", b"")
+
+    m.call, m.check_call, m.check_output, m.run = (call, check_call,
+                                                   check_output, run)
+
     def Popen(cmd, *a, **k):
+        if _is_shell(cmd, k):
+            # a command observer run through a shell
+            _shell(cmd)
+            return _DoneProcess(cmd)
         SUBPROCESS_CALLS.append(list(cmd) if isinstance(cmd, (list, tuple))
                                 else cmd)
         for v in (k.get("stdin"), ):
@@ -806,6 +864,9 @@ def bind():
     if _BOUND["done"]:
         return _BOUND["report"]
     sched.install_thread_patches()
+    # before the library is imported: a module that binds stdout at import
+    # time (`from sys import stdout`, a default argument) gets the capture
+    install_stdout()
     import auditok  # noqa: F401
     import auditok.cmdline
     import auditok.cmdline_util
@@ -861,6 +922,8 @@ def bind():
                 new = sim_named_temporary_file
             elif val is _os and short == "workers":
                 new = shims["os"]
+            elif val is _os.system and short == "workers":
+                new = shims["os"].system
             elif val is _subprocess and short == "workers":
                 new = shims["subprocess"]
             if new is not None:
@@ -870,8 +933,6 @@ def bind():
     for mod in (auditok.workers, auditok.cmdline, auditok.cmdline_util):
         mod.print = sim_print
         report.append((mod.__name__.split(".")[-1], "print", "capture"))
-    if not isinstance(sys.stdout, _SimStdout):
-        sys.stdout = _SimStdout(sys.stdout)
     auditok.io.open = sim_open
     report.append(("io", "open", "read proxy"))
     _BOUND["done"] = True
@@ -879,7 +940,14 @@ def bind():
     return report
 
 
+def install_stdout():
+    if not isinstance(sys.stdout, _SimStdout):
+        sys.stdout = _SimStdout(sys.stdout)
+
+
 def reset_captures(scratch_dir=None):
+    if isinstance(sys.stdout, _SimStdout):
+        sys.stdout._partial.clear()   # unterminated text of an earlier run
     del PRINTED[:]
     del PRINT_META[:]
     del STDERR[:]
